@@ -500,6 +500,11 @@ def run(ctx):
     tlc_env["JAVA_TOOL_OPTIONS"] = "-Xss1g"
     pipeline.drive_and_validate(ctx, exe, execs, SPEC_DIR, "JsonValueTrace", "Trace.cfg", label="json", nbatch=16, tlc_env=tlc_env,
                                 on_fired=on_fired)
+    # the process-locale family (lib/vlib/locale8.py): a slice of the same executions in a process that called setlocale()
+    # - an 8-bit character set with accented letters, and a decimal comma
+    from vlib import locale8
+    locale8.rerun(ctx, exe, execs[::3] if not thorough else execs, SPEC_DIR, "JsonValueTrace", "Trace.cfg", "json", names=("xx_XX", "yy_YY"),
+                  nbatch=8, tlc_env=tlc_env, on_fired=on_fired)
     for nm in sorted(fired):
         rec = devs.get(nm, {})
         ctx.known_finding(rec.get("id", nm), "id=%s %s" % (rec.get("id", nm), rec.get("what", DEV_TEXT[nm])))
